@@ -1416,7 +1416,15 @@ static int ex_exec(char *ln)
 /* execute a single ex command */
 int ex_command(char *ln)
 {
-	int ret = ex_exec(ln);
+	static int depth;	/* commands running commands: @, ra, so, e +cmd */
+	int ret = 1;
+	if (depth < 16) {
+		depth++;
+		ret = ex_exec(ln);
+		depth--;
+	} else {
+		ex_show("command nesting too deep");
+	}
 	lbuf_modified(xb);
 	return ret;
 }
